@@ -33,6 +33,43 @@ C["C17"] = ("model_checking",
   TRUST + "Bounds: sequences of length <= 5-6 over 4-5 values; this is bounded-exhaustive testing against an independent oracle (DESIGN.md 7).",
   "TLA+ ordering spec + TLC input enumeration replayed on the code", "DESIGN.md 5 C17")
 
+C["C01"] = ("model_checking",
+  "Implementation-shaped TLA+ specs of the fan-out/fan-in constructs (pipeline/Workers: Map, ProcessParallel, ParallelBuffer; Split; Merge; Generate; Buffer - reader goroutine, k workers, pipe/output channels with rendezvous, WaitGroup, closer goroutine, lazy once-setup) are model-checked exhaustively for Conservation (src + channels + held + delivered = input as bags in every state), CloseAfterDrain, SetupOnce, EofComplete, NoStall, order for one worker / Buffer, and termination under fairness; PipelineCtl (the controllable projection: release callback i / consumer read on output j / run to quiescence) generates driver schedules whose allowed observations TLC computes, and they are executed on the real constructs (10 kinds incl. itertool.ParallelForEach/Worker, MergeIterators, GenerateParallel, concurrent ReadOne) with gated callbacks and comparison at every quiescent point (exactly-once per item, output bag = f(input bag), order where demanded).",
+  TRUST + "Bounds: n <= 3 items, k <= 2 workers exhaustively in the Impl models and in the schedule enumeration; random schedules n <= 8, k <= 4, free-running n <= 24, k <= 6.",
+  "TLA+ Impl specs + exhaustive TLC (conservation invariants, liveness); spec-generated controllable schedules replayed on the code with observation at quiescence", "DESIGN.md 5 C01")
+C["C02"] = ("model_checking",
+  "IterAlgebra.tla is the functional specification (filter/map/concat/identity/fold/dedupe-first/enumerate/flatten with truncation at the first non-skip user error); IterOp.tla is the operational machine of the stateful nodes (ReadOne loop, Producer.Join stages, Transform retry loop, readOrFail, close hooks) written after the Go code, and TLC checks Operational = Denotational, Terminal and Reported on every enumerated operator tree; TLC enumerates the trees (all sources x all inputs over {0,1,2} of length <= 3 x fault positions, every unary variant, join/chain, depth-2 compositions, random deeper ones) with the accepted outputs, and each is built from the real constructors and drained five ways with element-wise comparison, terminality after the first error and Close() error-set checks; the harness also confirms that IterOp still reproduces the code's output term by term.",
+  TRUST + "Bounds: depth <= 2 exhaustively over small universes, random postfix constructions to 10-14 steps; one fault per user function. Four known findings (failure hidden behind channels / eager conversions; UnmarshalJSON over close-hook-only iterators) are reported as KNOWN-FINDING.",
+  "TLA+ functional spec + operational spec checked equal by TLC; TLC term enumeration replayed on the code", "DESIGN.md 5 C02")
+C["C04"] = ("model_checking",
+  "The C01 Impl specs plus FirstAdvance.tla (Close racing the first advance) are model-checked with the consumer actions Read / Close / Cancel / Close-then-cancel / CloseOutput(j): at every state where nothing internal is enabled after the consumer stopped all library goroutines are done, a blocked consumer is released, Close is idempotent and non-blocking, finite input reaches EOF under fairness; PipelineCtl generates stop schedules (every cut point x every stop mode x 16 constructs incl. Chain, MergeSlices, BufferedChannel, dt.Map / adt.Map iterators) that are executed on the real code, and at each quiescent point the goroutine census (goroutines with a tychoish/fun frame minus baseline), the return of Close / blocked ReadOne and of Run are judged; unsynchronised stop-versus-advance repetitions sample the first-advance race.",
+  TRUST + "Bounds: n <= 2-3, k <= 2 exhaustively; random n <= 8, k <= 4; the leak obligation follows the premises fixed in DESIGN.md 5.0.",
+  "TLA+ Impl specs + exhaustive TLC (quiescence invariants, liveness); spec-generated stop schedules executed on the code, goroutine census at quiescence", "DESIGN.md 5 C04")
+C["C10"] = ("model_checking",
+  "ServiceImpl.tla models srv.Service step by step (atomics isRunning/isFinished/isStarted, the start Once, cancel, WaitGroup, collector, the three signal channels, N Start / Close / Wait callers and the three service goroutines with their deferred chains) and TLC checks it exhaustively against the property automaton ServiceAbs (RunAtMostOnce, ExactlyOneStartNil, Shutdown/Cleanup/ErrorHandler once and in order, Wait blocks and aggregates, Running false after Wait); ServiceAbs generates driver schedules over the fault matrix {absent,ok,error,panic}^3 x handler x ending mode and over the three race windows (placed in the real code through the yield points srv.Service.Start.checked / Start.launched / run.finished), replayed with harness-supplied gated callbacks and observation at quiescence; every replay log and un-stepped concurrent histories are validated by TLC (ServiceTrace).",
+  TRUST + "Bounds: <= 3 Start, 2 Close, 2 Wait callers in the exhaustive model; quick tier samples the edge cover, thorough replays all of it.",
+  "TLA+ Impl spec checked against abstract spec by TLC; spec-generated schedules with yield points replayed on the code; TLC trace validation", "DESIGN.md 5 C10")
+C["C11"] = ("model_checking",
+  "OrchImpl / CleanupImpl (implementation-shaped) are model-checked against OrchAbs / CleanupAbs; OrchAbs, GroupAbs, PoolAbs (WorkerPool / HandlerWorkerPool) and CleanupAbs generate driver schedules (add before start / while running / racing shutdown / after cancel; outcomes ok / error / panic / blocks-until-cancel; gated members and jobs) whose allowed observations TLC computes; they are executed on the real srv package with harness-supplied services and jobs and judged at every quiescent point: started at most once, awaited, Wait only after all returned, errors.Is for every failure, accepted jobs run exactly once, a failing cleanup never prevents the others.",
+  TRUST + "Bounds: <= 4 services / jobs, pool size <= 3; quick tier samples the edge cover, thorough replays all of it plus deeper random schedules.",
+  "TLA+ abstract + Impl specs checked by TLC; spec-generated schedules replayed on the code with observation at quiescence", "DESIGN.md 5 C11")
+C["C12"] = ("model_checking",
+  "ErrAlgebra.tla transcribes ers.Join / Stack.Push / Wrap / ParsePanic / Collector case by case and states an independent oracle (bag of supplied constituents, reachable leaves); TLC enumerates every construction term of the bounds and prints the expected observation vector (nil?, identity of the single plain case, errors.Is per leaf and per unrelated sentinel, errors.As per type, Unwind as bag and most-recent-first for direct arguments, Len), each term is built with the real functions and compared; CollectorStep generates sequential schedules and CollectorLinTrace validates recorded sequential and concurrent (2-4 goroutines) histories of erc.Collector (Add / Len / Resolve / Iterator) for linearizability against the sequential Collector spec.",
+  TRUST + "Bounds: depth <= 2, arity <= 3 over 5 leaves + nil exhaustively, random constructions of 12-24 steps; this is bounded-exhaustive testing against an independent oracle for the pure part (DESIGN.md 7).",
+  "TLA+ error algebra + TLC term enumeration replayed on the code; TLC trace validation (linearizability) of Collector histories", "DESIGN.md 5 C12")
+C["C15"] = ("model_checking",
+  "Once / Limit / OpLimit / Lock / Retry / Hooks / Launch are implementation-shaped TLA+ specs (sync.Once + cached result, limitExec's CAS fast path + mutex, Operation.Limit's CAS loop, the retry classification loops, hook composition incl. the context-expired short-circuit, goroutine + signal channel) model-checked for ExactlyOnce, NoReturnBeforeDone, AllSeeResult, Executions = min(n, calls), MutualExclusion, retry bounds, hook order, WaiterReturn => BackgroundDone; WrappersStep generates schedules (all Retry scripts, all hook scenarios, edge cover for the concurrent wrappers over every constructor kind) executed on the real wrappers with harness-owned gated functions and observation at quiescence; un-stepped concurrent histories are validated by TLC (WrappersTrace).",
+  TRUST + "Bounds: 3-4 callers, n <= 3, result scripts of length <= 4 over {ok, err, skip, eof, ctx, panic}; Operation.Limit is judged for the count only (DESIGN.md 5.0).",
+  "TLA+ Impl specs + exhaustive TLC; spec-generated schedules replayed on the code at quiescence; TLC trace validation", "DESIGN.md 5 C15")
+C["C18"] = ("model_checking",
+  "SetSpec.tla is the reference set (members, insertion order when ordered, how it became ordered, synchronized flag, two sets for Equal / Extend); TLC enumerates call sequences (all of length 3, edge cover of the abstract graph, random walks of 30 calls) and each is replayed on real dt.Set values with full-state comparison after every call (return value, Len, Check for every value, iterator bag / sequence, Equal both ways, JSON form and round trip); concurrent histories of a synchronized set are validated by TLC for linearizability (SetLinTrace).",
+  TRUST + "Bounds: values {1,2,3}, two sets, depth 3 exhaustively; histories of 3 goroutines.",
+  "TLA+ sequential spec + TLC enumeration of call sequences replayed with full-state comparison; TLC trace validation (linearizability)", "DESIGN.md 5 C18")
+C["C19"] = ("model_checking",
+  "Hdr.tla transcribes the bucket geometry with integer arithmetic (unit magnitude, sub-bucket count, bucket / sub-bucket index, counts index, lowest / highest equivalent value) with state = bag of recorded values + counts, and checks in-model that every in-range value has a valid index and that the quantile bound follows from the bucket width; TLC enumerates call sequences per shape (all multisets of boundary-directed values, all call pairs over Record / RecordN / Merge / Export-Import / Reset / windowed rotation, random walks) with the expected Total, order statistics, Min, Max; each is replayed on a real Histogram / WindowedHistogram and compared after every call; any recovered invariant panic is a violation.",
+  TRUST + "Bounds: shapes (min, max, sigfigs) from the cfg files, <= 4-6 records exhaustively; float-based queries only at ranks whose computation is unambiguous (q = 100 r / total); Mean / StdDev not modelled (DESIGN.md 7).",
+  "TLA+ integer model of the histogram + TLC enumeration of call sequences replayed on the code", "DESIGN.md 5 C19")
+
 WIP = "check not built yet (work in progress, see DESIGN.md section 9)"
 
 
